@@ -43,6 +43,10 @@ Decide(D, src, l, p, e) ==
        [] k = "val_t_paren"   -> emitw(100)          \* |lex| (val_t(lex)) + 100
        [] k = "val_t_brace"   -> emitw(200)          \* |lex| { val_t(lex) } + 200
        [] k = "val_t_index"   -> emitw(300)          \* |lex| [val_t(lex), 7][0] + 300
+       [] k = "val_t_tuple"   -> [act |-> "emit", name |-> v \o "((" \o Num(len) \o ", 7))", end |-> e]   \* |lex| (val_t(lex), 7u8): the body is one parenthesised group, a tuple
+       [] k = "val_t_match"   -> emitw(400)          \* |lex| match val_t(lex) { n => n } + 400
+       [] k = "val_t_if"      -> emitw(500)          \* |lex| if true { val_t(lex) } else { 0 } + 500
+       [] k = "val_t_mcall"   -> emitw(600)          \* |lex| match val_t(lex) { n => n }.wrapping_add(600)
        [] k = "unit_bool_and" -> errd                \* |lex| (unit_bool(lex)) && false
        [] k = "unit_bool_or"  -> emitu               \* |lex| { unit_bool(lex) } || true
        [] k = "val_res"       -> IF sel < 2 THEN emitv ELSE errc
